@@ -1,22 +1,23 @@
 -------------------------------- MODULE Trace --------------------------------
 (* Universal trace specification: dispatches every event to its package.   *)
-EXTENDS TraceDate, TraceRoman, TraceUU, TraceSem, TraceSize, TraceCross, TraceRandom, TraceHelper
+EXTENDS TraceDate, TraceRoman, TraceUU, TraceSem, TraceSize, TraceCross, TraceRandom, TraceHelper, TraceOverride
 
-allvars == <<dvars, rvars, uvars, svars, zvars, qvars>>
+allvars == <<dvars, rvars, uvars, svars, zvars, qvars, ovars>>
 
-TraceInit == TraceBaseInit /\ DateInit /\ RomanInit /\ UUInit /\ SemInit /\ SizeInit /\ RandomInit
+TraceInit == TraceBaseInit /\ DateInit /\ RomanInit /\ UUInit /\ SemInit /\ SizeInit /\ RandomInit /\ OverrideInit
 
 TraceNext ==
   \/ /\ l <= Len(Trace)
      /\ LET e == Trace[l] IN
-          \/ IsDateOp(e)   /\ DateStep(e)   /\ UNCHANGED <<rvars, uvars, svars, zvars, qvars>>
-          \/ IsRomanOp(e)  /\ RomanStep(e)  /\ UNCHANGED <<dvars, uvars, svars, zvars, qvars, ctx>>
-          \/ IsUUOp(e)     /\ UUStep(e)     /\ UNCHANGED <<dvars, rvars, svars, zvars, qvars, ctx>>
-          \/ IsSemOp(e)    /\ SemStep(e)    /\ UNCHANGED <<dvars, rvars, uvars, zvars, qvars, ctx>>
-          \/ IsSizeOp(e)   /\ SizeStep(e)   /\ UNCHANGED <<dvars, rvars, uvars, svars, qvars, ctx>>
+          \/ IsDateOp(e)   /\ DateStep(e)   /\ UNCHANGED <<rvars, uvars, svars, zvars, qvars, ovars>>
+          \/ IsRomanOp(e)  /\ RomanStep(e)  /\ UNCHANGED <<dvars, uvars, svars, zvars, qvars, ovars, ctx>>
+          \/ IsUUOp(e)     /\ UUStep(e)     /\ UNCHANGED <<dvars, rvars, svars, zvars, qvars, ovars, ctx>>
+          \/ IsSemOp(e)    /\ SemStep(e)    /\ UNCHANGED <<dvars, rvars, uvars, zvars, qvars, ovars, ctx>>
+          \/ IsSizeOp(e)   /\ SizeStep(e)   /\ UNCHANGED <<dvars, rvars, uvars, svars, qvars, ovars, ctx>>
           \/ IsCrossOp(e)  /\ CrossStep(e)  /\ UNCHANGED <<allvars, ctx>>
-          \/ IsRandomOp(e) /\ RandomStep(e) /\ UNCHANGED <<dvars, rvars, uvars, svars, zvars, ctx>>
+          \/ IsRandomOp(e) /\ RandomStep(e) /\ UNCHANGED <<dvars, rvars, uvars, svars, zvars, ovars, ctx>>
           \/ IsHelperOp(e) /\ HelperStep(e) /\ UNCHANGED <<allvars, ctx>>
+          \/ IsOverrideOp(e) /\ OverrideStep(e) /\ UNCHANGED <<dvars, rvars, uvars, svars, zvars, qvars, ctx>>
           \* util.reset: every package back to its initial state (configuration and receiver)
           \/ /\ e.op = "util.reset"
              /\ dMax' = 10 /\ dRecv' = ZeroDate /\ dRet' = [k |-> "unit"] /\ UNCHANGED <<dFilt, dVars>>
@@ -25,7 +26,7 @@ TraceNext ==
              /\ zSw' = [dmtu |-> FALSE, dmjs |-> FALSE, dmjo |-> FALSE] /\ zRule' = 6 /\ zMax' = 128 /\ zKeys' = 16
              /\ zRecv' = BZero /\ zRet' = [k |-> "unit"]
              /\ uMax' = 45 /\ uRecv' = ZeroID /\ uRet' = [k |-> "unit"]
-             /\ UNCHANGED <<qvars, ctx>> /\ Note(<<>>)
+             /\ UNCHANGED <<qvars, ovars, ctx>> /\ Note(<<>>)
      /\ l' = l + 1
   \/ Finish /\ UNCHANGED allvars
 
